@@ -111,6 +111,7 @@ theorem fibreNullerBackward_parity (apod : Option (List K)) (Pb B : List (List K
   simp [fibreNullerBackward, fibreBackward, parity, optMul_parity]
 theorem fibreModes_parity (Mc Mh : List (List K)) (ph w : List K) :
     parity (fibreModes Mc ph Mh w) = some false := rfl
+theorem scaledTransform_parity (c : K) (F : List (List K)) : parity (scaledTransform c F) = some false := rfl
 theorem lyotCore_parity (Pb : List (List K)) (m1 : List K) (Pf : List (List K)) :
     parity (lyotCore Pb m1 Pf) = some false := rfl
 
@@ -244,6 +245,7 @@ example : ∀ f : Family, ∃ args : List (Arg ℤ), (familyTerm f args).isSome 
   · exact ⟨[.mat [], .mat [], .none], rfl⟩
   · exact ⟨[.none, .mat [], .mat []], rfl⟩
   · exact ⟨[.mat [], .vec [], .mat [], .vec []], rfl⟩
+  · exact ⟨[.vec [0], .mat []], rfl⟩
 
 end FamilyLinear
 
